@@ -18,6 +18,9 @@ class Cell(NullCell):
     If you want to write to cell use .to_builder() method.
     """
     def __init__(self, bits: BitarrayLike, refs: typing.List["Cell"], cell_type: int = -1) -> None:
+        if not isinstance(bits, TvmBitarray):
+            # a plain bitarray has no read bounds and would be padded in place by get_data_bytes
+            bits = TvmBitarray(1023, bits)
         self.bits: BitarrayLike = bits
         self.refs: list = refs
         self.type_: int = cell_type
